@@ -57,6 +57,7 @@ func vBool(s string) *V               { return &V{K: KBool, S: s, T: types.Typ[t
 // ---- engine-global tables ----
 
 type Engine struct {
+	wanted func(*FnRun, *Obligation) bool // obligations worth building (nil: all)
 	retryOnly func(*Obligation) bool // which undecided obligations get the second-chance pass (nil: all)
 	dyn *dynTargets
 	prog      *ssa.Program
@@ -234,6 +235,7 @@ type Obligation struct {
 	ClauseKey string
 	Expect   string // "unsat" (normal) or "sat" (cover/canary obligations: must NOT be provable)
 	QueryText string
+	Skipped  bool // not claimed on this run (error-flow sweep instance outside the baseline)
 }
 
 type FnRun struct {
@@ -265,6 +267,7 @@ type FnRun struct {
 	modelsUsed map[string]bool
 	calleesByContract map[string]bool
 	failKeysDone bool
+	errDisc map[string]bool
 	failKeyList []string
 	trustedCallees map[string]bool
 	pureIfaces map[string]bool
